@@ -1273,6 +1273,28 @@ func ruleC09SortOrder(p *Prog, a *Anchors, r *Report) {
 				r.Bad(p.FuncName(f)+":nan", p.InstrPos(floatCmp), "floats are ordered by < without a NaN test: NaN is \"equal\" to every number while the others differ, so one NaN key makes the order of all the float keys of a map depend on Go's random map order")
 			}
 		}
+		if exact {
+			// "exact" only if an integer gets into the big number as an integer: one built from Float() has lost
+			// everything beyond 2^53 before the comparison starts
+			viaInt := false
+			for _, fn := range clusterOf(p, f, 2) {
+				for _, b := range fn.Blocks {
+					for _, in := range b.Instrs {
+						if c, ok := in.(*ssa.Call); ok && c.Common().StaticCallee() != nil && c.Common().StaticCallee().Pkg != nil && c.Common().StaticCallee().Pkg.Pkg.Path() == "math/big" {
+							switch c.Common().StaticCallee().Name() {
+							case "SetInt64", "SetUint64", "NewInt", "SetInt":
+								viaInt = true
+							}
+						}
+					}
+				}
+			}
+			if viaInt {
+				r.OK(p.FuncName(f)+":exact-integers", p.Pos(f.Pos()), "integers enter the exact comparison as integers (SetInt64/SetUint64)")
+			} else {
+				r.Bad(p.FuncName(f)+":exact-integers", p.Pos(f.Pos()), "the numbers handed to the exact comparison are all built from float64 values: integers beyond 2^53 have lost their last digits before they are compared, so distinct keys tie again")
+			}
+		}
 		switch {
 		case exact && !hasInt && !hasFloat:
 			r.OK(key, p.Pos(f.Pos()), "numbers are compared exactly (math/big Cmp)")
